@@ -165,6 +165,26 @@ def cases_expr(facts, e, depth=0):
                 out.extend((conds + c2, v2) for c2, v2 in cc)
             else:
                 out.append((conds, ("const", {"ty": "bool", "bool": False})))
+        elif meth == "transpose":
+            # Option<Result<T, E>> → Result<Option<T>, E>   /   Result<Option<T>, E> → Option<Result<T, E>>
+            if kind == "opt":
+                if tag != good:
+                    out.append((conds, ("agg", {"agg": "Adt", "variant": "Ok"}, [("agg", {"agg": "Adt", "variant": "None"}, [])])))
+                else:
+                    inner = src_cases(facts, payload, "res", depth + 1)
+                    if inner is None:
+                        return None
+                    for c2, t2, p2 in inner:
+                        out.append((conds + c2, ("agg", {"agg": "Adt", "variant": "Ok"}, [wrap(p2, "Some")]) if t2 == "Ok" else ("agg", {"agg": "Adt", "variant": "Err"}, [p2])))
+            else:
+                if tag != good:
+                    out.append((conds, wrap(("agg", {"agg": "Adt", "variant": "Err"}, [payload]), "Some")))
+                else:
+                    inner = src_cases(facts, payload, "opt", depth + 1)
+                    if inner is None:
+                        return None
+                    for c2, t2, p2 in inner:
+                        out.append((conds + c2, wrap(("agg", {"agg": "Adt", "variant": "Ok"}, [p2]), "Some") if t2 == "Some" else ("agg", {"agg": "Adt", "variant": "None"}, [])))
         elif meth in ("copied", "cloned", "as_ref", "as_deref", "map_err", "as_mut"):
             out.append((conds, wrap(payload) if tag == good else ("agg", {"agg": "Adt", "variant": bad}, [payload] if kind == "res" else [])))
         else:
